@@ -97,6 +97,30 @@ def check_desc(ctx, pkg, name, dims, prim=None):
                   '%s.get_type(%r) = %r, expected %s' % (rname, desc, got, ' or '.join(repr(a) for a in sorted(acc))))
 
 
+def check_proto(ctx, types):
+    """parameter lists: the decompiler splits a method descriptor in androguard's spaced notation `(T1 T2 ...)R` into its
+    parameter types (util.get_params_type) and renders each one; every parameter must come out as its own Java name."""
+    from androguard.decompiler import util
+    descs, accs = [], []
+    for (pkg, name, dims, prim) in types:
+        pkg = tuple(pkg)
+        descs.append(('[' * dims + prim) if prim is not None else descriptor(pkg, name, dims))
+        accs.append(expected_names(pkg, name, dims, prim))
+    proto = '(' + ' '.join(descs) + ')V'
+    case = {'mode': 'proto', 'types': [[list(t[0]), t[1], t[2], t[3]] for t in types], 'descriptor': proto}
+    ctx.case(nontrivial=len(types) >= 2, key=('proto', proto), labels=('proto:n%d' % min(len(types), 5),),
+             sample={'descriptor': proto, 'accepted': [sorted(a) for a in accs]})
+    try:
+        got = list(util.get_params_type(proto))
+        names = [util.get_type(x) for x in got]
+    except Exception as e:
+        ctx.fail('exception:%s:proto' % type(e).__name__, case, traceback.format_exc())
+        return
+    ok = len(got) == len(descs) and all(n in a for n, a in zip(names, accs))
+    ctx.check(ok, 'proto:params', lambda: dict(case, observed_types=got, observed_names=names),
+              'parameters of %r rendered as %r (split into %r), expected %s' % (proto, names, got, [sorted(a) for a in accs]))
+
+
 # ---- strategies -----------------------------------------------------------------------------------------------------
 # SimpleNameChar of the DEX format: A-Z a-z 0-9 $ - _ and U+00A1.. (a few representatives), no '/', ';', '[', '.'
 _BIASED = 'javlng' * 3 + 'JAVLNG' + 'abcxyzLIVZ' + 'STRO' + '0123456789' + '$_-' + 'éß中Ж\U00010400'
@@ -115,6 +139,8 @@ _cls_case = st.tuples(_pkg, _name, _dims, st.none())
 _prim_case = st.tuples(st.just(()), st.just(''), _dims, st.sampled_from(sorted(PRIM))).filter(
     lambda t: not (t[3] == 'V' and t[2] > 0))
 _case = st.one_of(_cls_case, _cls_case, _cls_case, _prim_case)
+_proto_case = st.lists(st.one_of(_cls_case, _cls_case, _prim_case.filter(lambda t: t[3] != 'V')).map(
+    lambda t: (t[0], t[1], min(t[2], 3), t[3])), min_size=0, max_size=5)
 
 
 def shards(tier, seed):
@@ -140,7 +166,11 @@ def run_shard(ctx, shard):
     else:
         n = 2500 if ctx.tier == 'quick' else 30000
         hyp_collect(ctx, _case, lambda c, v: check_desc(c, v[0], v[1], v[2], prim=v[3]), n, salt=shard[1])
+        hyp_collect(ctx, _proto_case, check_proto, n // 5, salt=100 + shard[1])
 
 
 def replay(ctx, case):
+    if case.get('mode') == 'proto':
+        check_proto(ctx, [(tuple(t[0]), t[1], t[2], t[3]) for t in case['types']])
+        return
     check_desc(ctx, tuple(case['pkg']), case['name'], case['dims'], prim=case.get('prim'))
